@@ -3,6 +3,7 @@ package main
 import (
 	"bytes"
 	"encoding/json"
+	"errors"
 	"flag"
 	"fmt"
 	"math/rand"
@@ -458,7 +459,10 @@ func experiment(bin, base string, cp crashPoint, idx int) *outcome {
 		err = d.Start(60 * time.Second)
 	}
 	if err != nil {
-		if err == daemon.ErrDied {
+		var sd *daemon.StartDied
+		if errors.As(err, &sd) && sd.PortTaken() {
+			o.Inconcl = append(o.Inconcl, "restart: "+err.Error())
+		} else if errors.Is(err, daemon.ErrDied) {
 			viol("C04:restart-fails", "the daemon exits when started on the directory left by the crash")
 		} else {
 			o.Inconcl = append(o.Inconcl, "restart: "+err.Error())
